@@ -133,6 +133,8 @@ def make_cases(tier, seed):
     for _ in range(nrand):
         rec = gen.leaf_recipe(rng)
         docs = [gen.document(rng, depth=rng.choice([1, 2, 2, 3]), strish=0.6) for _ in range(2)]
+        if rec["pre"] != "dtype" and rng.random() < 0.04:
+            docs = [gen.subclassify(d) for d in docs]      # OrderedDict / list-subclass containers (and items)
         cases.append((rec, docs))
     return cases, len(leaves), len(conts)
 
@@ -177,7 +179,8 @@ def run(rep, tier, seed):
                 continue
             for e in evs:
                 events.append(e)
-                recipes[e["id"]] = {"kind": "filter", "leaf": to_lit(rec), "doc": to_lit(doc), "entry": e["entry"]}
+                recipes[e["id"]] = {"kind": "filter", "leaf": to_lit(rec), "doc": to_lit(doc), "entry": e["entry"],
+                                    "sub": type(doc) not in (list, dict)}
                 rep.note_case(repr((rec, doc, e["entry"])), nontrivial=e["outcome"] != "ok" or len(set(e["result"])) > 1
                               or e["op"] == "test_all")
     res = tlc.accept("Trace_Cond", "Trace_Cond.cfg", events)
@@ -209,7 +212,8 @@ def replay(rep, case):
     be, obj = build_event(1, rec)
     events.append(be)
     if r["kind"] == "filter" and obj is not None:
-        events += filter_events(2, obj, be["proj"], from_lit(r["doc"]), entries=(r["entry"],))
+        doc = from_lit(r["doc"])
+        events += filter_events(2, obj, be["proj"], gen.subclassify(doc) if r.get("sub") else doc, entries=(r["entry"],))
     res = tlc.accept("Trace_Cond", "Trace_Cond.cfg", events, shards=1)
     rep.add_tlc(res, "B:Trace_Cond(replay)")
     rep.traces += len(events)
